@@ -12,7 +12,7 @@ from vf.oracle.stubeval import StubEval
 from vf.props import modrun
 
 WIDE_POOL = [e for e in gv.BASIS if "make_gen" not in e and "lambda" not in e] + ["X1()", "X2()", "X3()", "X4()", "X5()", "X6()", "E1()", "E2()", "E3()", "E4()", "E5()", "E6()",
-                                                             "R1()", "[X1(), X2()]", "{'a': X1()}", "{'a': 1, 'b': X2()}"]
+                                                             "R1()", "[X1(), X2()]", "{'a': X1()}", "{'a': 1, 'b': X2()}", "PkgLevel()", "[PkgLevel(), A()]", "{'p': PkgLevel()}"]
 
 
 def normal_form(text, tmod):
